@@ -268,6 +268,10 @@ func c16Panics(c *Ctx, kc *kindCtx) {
 				okD := c16DeadPanic(b)
 				c.check(okD, "panic-inventory", name+"#dead", pn.Pos(), "dead: reached only if neither of two conditions holds, after an early return when neither holds", "a panic marked unreachable is not provably dead")
 			default:
+				if c16DeadPanic(b) {
+					c.ok("panic-inventory", name+"#dead", pn.Pos(), "dead: no reflect kind satisfies the conditions under which the panic is reached")
+					break
+				}
 				c.bad("panic-inventory", name, pn.Pos(), "unclassified panic: %s", c16PanicText(pn))
 			}
 		}
@@ -518,6 +522,23 @@ func c16TagInvariant(c *Ctx, f *ssa.Function, pn *ssa.Panic) {
 
 // c16DeadPanic: `if !a && !b {return}; ...; if a {..} else if b {..} else {panic}`.
 func c16DeadPanic(b *ssa.BasicBlock) bool {
+	// no reflect kind reaches the block: the default arm of a kind switch nested in an arm of a switch over the kind
+	// of the same value (a helper with a "cannot happen" arm folded into its only kind-restricted call site)
+	{
+		pb := &predBuilder{}
+		g := pb.pathCond(b.Parent().Blocks[0], b)
+		fb, fi := map[string]bool{}, map[string]bool{}
+		atomsOf(g, fb, fi)
+		if len(fi) == 1 {
+			for a := range fi {
+				if strings.HasPrefix(a, "(reflect.Type).Kind(") || strings.HasPrefix(a, "(reflect.Value).Kind(") {
+					if len(kindsWhere(g, a)) == 0 {
+						return true
+					}
+				}
+			}
+		}
+	}
 	// the panic block is reached with two conditions false; an earlier block returns when both are false
 	var falseConds []ssa.Value
 	for _, ec := range condsDominating(b) {
